@@ -40,7 +40,7 @@ def instr13(draw):
     if k == 9:
         return {"op": "derive_gauge", "a": a, "g": draw(chain.gauge_instr("S")), "on": draw(st.sampled_from(["S", "S", "O", "M"]))}
     if k == 10:
-        return {"op": draw(st.sampled_from(["trunc", "vcompress", "vcompress", "optimize"])), "a": a, "o": o, "small_guess": draw(st.integers(0, 1)), "M": draw(st.sampled_from([1, 2, 4])), "dir": draw(st.integers(0, 1)),
+        return {"op": draw(st.sampled_from(["trunc", "vcompress", "vcompress", "optimize"])), "a": a, "o": o, "small_guess": draw(st.integers(0, 3)) > 0, "M": draw(st.sampled_from([1, 2, 4])), "dir": draw(st.integers(0, 1)),
                 "crit": "fixed", "thr": 0.1, "method": draw(st.sampled_from(["1site", "2site"])), "nroots": 1, "pct": 0.2,
                 "algo": "direct", "rng": draw(st.integers(0, 1000))}
     return {"op": "mpdm_from", "a": a}
@@ -66,7 +66,26 @@ def cases(draw, tier):
     for _ in range(draw(st.integers(1, 2))):
         prog.append(draw(chain.mpo_instr(spec)))
     for _ in range(draw(st.integers(4, 12 if tier == "quick" else 25))):
-        prog.append(draw(instr13()))
+        if draw(st.integers(0, 4)) == 0:
+            # aliasing probe: derive with an operation that could return its input or share its buffers (copy, conj, to_complex
+            # of an already complex object, scale by exactly one / minus one), then mutate one side at once
+            a, on = draw(st.integers(0, 20)), draw(st.sampled_from(["S", "S", "O", "M"]))
+            if draw(st.booleans()) and on == "S":
+                prog.append({"op": "to_complex", "a": a, "on": on})
+            if on == "O" and draw(st.booleans()):
+                prog.append({"op": "conj_trans", "a": a})
+            else:
+                prog.append(draw(st.sampled_from([{"op": "scale", "a": a, "on": on, "val": [1.0, 0.0], "inplace": False},
+                                                  {"op": "scale", "a": a, "on": on, "val": [-1.0, 0.0], "inplace": False},
+                                                  {"op": "copy", "a": a, "on": on}, {"op": "conj", "a": a, "on": on},
+                                                  {"op": "to_complex", "a": a, "on": on}])))
+            prog.append({"op": "mutate13", "a": draw(st.sampled_from([-1, a])),
+                         "what": draw(st.sampled_from(["mutate_tensor", "mutate_tensor", "mutate_tensor", "scale_inplace", "coeff",
+                                                       "normalize_inplace", "compress_inplace"])),
+                         "site": draw(st.integers(0, 6)), "val": draw(st.sampled_from(chain.SCALARS)), "on": on,
+                         "dir": draw(st.sampled_from([0, 0, 1]))})
+        else:
+            prog.append(draw(instr13()))
     return {"model": spec, "prog": prog, "ham": draw(gen.hermitian_hamiltonian(spec, max_terms=3))}
 
 
@@ -359,7 +378,7 @@ class C13(Prop):
     }
 
     def budget(self, tier):
-        return dict(examples=320, shards=16) if tier == "quick" else dict(examples=8000, shards=16)
+        return dict(examples=960, shards=16) if tier == "quick" else dict(examples=24000, shards=16)
 
     def strategy(self, tier):
         # three chain histories for every tree history
